@@ -1329,3 +1329,146 @@ Proof.
   apply (il_step [[]] (Watch 1 0 ok) [] []).
   apply il_done. repeat constructor.
 Qed.
+
+(** * No leaked informer
+
+    Every informer ever started is either still the map's entry for its kind or has been stopped: at
+    any time the number of informers of a kind that were started and not stopped is 1 if the map has an
+    entry for the kind and 0 otherwise - whatever fails (informerMap.Get before or after starting the
+    informer, handler registration, informerMap.Delete), for both models. *)
+Definition b2n (b : bool) : nat := if b then 1%nat else 0%nat.
+
+Lemma live_from_app g a b n : live_from g (a ++ b) n = live_from g b (live_from g a n).
+Proof. unfold live_from. apply fold_left_app. Qed.
+
+Lemma live_from_gev g evs : forall n, live_from g evs n = live_from g (gev g evs) n.
+Proof.
+  unfold live_from, gev. induction evs as [|e evs IH]; intros n; [reflexivity|]. cbn.
+  destruct (ev_gvk e =? g) eqn:E; cbn; [apply IH|].
+  rewrite <- IH. f_equal. destruct e as [g0 b|g0|g0 h b|g0 b|g0]; cbn in *; rewrite ?E; reflexivity.
+Qed.
+
+Lemma k_get_live g mode i i' evs r :
+  k_get g mode i = (i', evs, r) -> live_from g evs (b2n (is_some i)) = b2n (is_some i').
+Proof.
+  unfold k_get. destruct mode, i; intros H; injection H as <- <- <-; cbn; rewrite ?N.eqb_refl; reflexivity.
+Qed.
+
+Lemma k_delete_live g fails i i' evs r :
+  k_delete g fails i = (i', evs, r) -> live_from g evs (b2n (is_some i)) = b2n (is_some i').
+Proof.
+  unfold k_delete. destruct fails, i; intros H; injection H as <- <- <-; cbn; rewrite ?N.eqb_refl; reflexivity.
+Qed.
+
+Lemma add_handlers_live g todo : forall i failk att att' evs r n,
+  add_handlers g todo i failk att = (att', evs, r) -> live_from g evs n = n.
+Proof.
+  induction todo as [|h todo IH]; cbn; intros i failk att att' evs r n H.
+  - injection H as <- <- <-. reflexivity.
+  - destruct (match failk with Some k => i =? k | None => false end).
+    + injection H as <- <- <-. reflexivity.
+    + destruct (add_handlers g todo (i + 1) failk (att ++ [h])) as [[a e] r0] eqn:E.
+      injection H as <- <- <-. cbn. eapply IH; eassumption.
+Qed.
+
+Lemma k_handle_live g out handlers i i' evs r :
+  k_handle g out handlers i = (i', evs, r) ->
+  live_from g evs (b2n (is_some i)) = b2n (is_some i').
+Proof.
+  unfold k_handle. destruct i as [att|].
+  - destruct (add_handlers g handlers 0 (failk_of out) att) as [[a e] r0] eqn:E.
+    intros H; injection H as <- <- <-. cbn [is_some]. eapply add_handlers_live; eassumption.
+  - intros H; injection H as <- <- <-. reflexivity.
+Qed.
+
+Lemma kstep_live fixed g handlers v x v' e evs :
+  kstep_rel fixed g handlers v x v' e evs ->
+  live_from g evs (b2n (is_some (snd v))) = b2n (is_some (snd v')).
+Proof.
+  assert (Hread : forall v v' e evs, k_read g v = (v', e, evs) ->
+            live_from g evs (b2n (is_some (snd v))) = b2n (is_some (snd v'))).
+  { intros [[l|] i] w e0 evs0; unfold k_read.
+    - destruct (k_get g GetOk i) as [[i1 ev1] got] eqn:Eg. intros H; injection H as <- <- <-.
+      eapply k_get_live; eassumption.
+    - intros H; injection H as <- <- <-. reflexivity. }
+  destruct x as [o g0 out|o out order|g0|g0|g0]; cbn [kstep_rel].
+  - destruct (g0 =? g); [|intros [-> ->]; reflexivity].
+    destruct v as [[l|] i]; cbn [snd].
+    + destruct fixed; cbn; intros H; injection H as <- <- <-; reflexivity.
+    + destruct fixed; cbn -[k_get k_handle k_delete].
+      * destruct (k_get g (get_mode_of out) i) as [[i1 ev1] got] eqn:Eg.
+        pose proof (k_get_live _ _ _ _ _ _ Eg) as R1.
+        destruct got; cbn [negb].
+        -- destruct (k_handle g out handlers i1) as [[i2 ev2] added] eqn:Eh.
+           pose proof (k_handle_live _ _ _ _ _ _ _ Eh) as R2.
+           destruct added; cbn [negb].
+           ++ intros H; injection H as <- <- <-; cbn. now rewrite live_from_app, R1.
+           ++ destruct (k_delete g false i2) as [[i2' evd] rd] eqn:Ed.
+              pose proof (k_delete_live _ _ _ _ _ _ Ed) as R3.
+              intros H; injection H as <- <- <-; cbn. now rewrite !live_from_app, R1, R2.
+        -- destruct (k_delete g false i1) as [[i1' evd] rd] eqn:Ed.
+           pose proof (k_delete_live _ _ _ _ _ _ Ed) as R3.
+           intros H; injection H as <- <- <-; cbn. now rewrite live_from_app, R1.
+      * destruct (k_get g (get_mode_of out) i) as [[i1 ev1] got] eqn:Eg.
+        pose proof (k_get_live _ _ _ _ _ _ Eg) as R1.
+        destruct got; cbn [negb].
+        -- destruct (k_handle g out handlers i1) as [[i2 ev2] added] eqn:Eh.
+           pose proof (k_handle_live _ _ _ _ _ _ _ Eh) as R2.
+           destruct added; cbn [negb]; intros H; injection H as <- <- <-; cbn; now rewrite live_from_app, R1.
+        -- intros H; injection H as <- <- <-; cbn. assumption.
+  - intros [(_ & -> & ->)|(r & Hk & _)]; [reflexivity|].
+    unfold k_free in Hk. destruct v as [[l|] i]; cbn [snd].
+    + destruct (mem o l).
+      * destruct (nilb (rem o l)).
+        -- destruct (k_delete g _ i) as [[i1 ev1] deleted] eqn:Ed.
+           pose proof (k_delete_live _ _ _ _ _ _ Ed) as R.
+           destruct deleted; cbn [negb] in Hk; injection Hk as <- <- <-; assumption.
+        -- injection Hk as <- <- <-. reflexivity.
+      * injection Hk as <- <- <-. reflexivity.
+    + injection Hk as <- <- <-. reflexivity.
+  - destruct (g0 =? g); [apply Hread|intros [-> ->]; reflexivity].
+  - destruct (g0 =? g); [apply Hread|intros [-> ->]; reflexivity].
+  - intros [-> ->]; reflexivity.
+Qed.
+
+Lemma step_live fixed s x s' o' g :
+  stepf fixed s x = (s', o') ->
+  live_from g (o_events o') (b2n (runningb s g)) = b2n (runningb s' g).
+Proof.
+  intros H. destruct (step_kind _ _ _ _ _ H) as [_ Hk]. rewrite live_from_gev.
+  apply (kstep_live _ _ _ _ _ _ _ _ (Hk g)).
+Qed.
+
+Lemma exec_live fixed g ops : forall s,
+  live_from g (history (exec_with (stepf fixed) s ops)) (b2n (runningb s g))
+  = b2n (runningb (runf fixed s ops) g).
+Proof.
+  induction ops as [|x ops IH]; intros s; [reflexivity|].
+  unfold runf, run_with in *. cbn [exec_with fold_left].
+  destruct (stepf fixed s x) as [s' o'] eqn:E. cbn [history flat_map fst].
+  rewrite live_from_app, (step_live _ _ _ _ _ g E). apply IH.
+Qed.
+
+Theorem no_leaked_informer fixed handlers ops g :
+  live g (history (exec_with (stepf fixed) (init handlers) ops))
+  = if runningb (runf fixed (init handlers) ops) g then 1%nat else 0%nat.
+Proof. apply (exec_live fixed g ops (init handlers)). Qed.
+
+(** Hence never two informers of one kind, and none for a kind nobody references (repaired model). *)
+Corollary Cache_fixed_informers_match_owners handlers ops g :
+  no_delete_failures ops = true ->
+  let s := Cache_fixed.run (init handlers) ops in
+  live g (history (Cache_fixed.exec (init handlers) ops)) = if nilb (owners s g) then 0%nat else 1%nat.
+Proof.
+  intros Hnd s. subst s.
+  change (Cache_fixed.exec (init handlers) ops) with (exec_with (stepf true) (init handlers) ops).
+  change (Cache_fixed.run (init handlers) ops) with (runf true (init handlers) ops).
+  rewrite no_leaked_informer.
+  pose proof (Cache_fixed_inv_informer_iff_owner handlers ops g Hnd) as Hiff. cbv zeta in Hiff.
+  change (Cache_fixed.run (init handlers) ops) with (runf true (init handlers) ops) in Hiff.
+  unfold running, owned, runningb in *.
+  destruct (lookup g (infs (runf true (init handlers) ops))) as [a|],
+           (owners (runf true (init handlers) ops) g) as [|o l]; cbn; try reflexivity; exfalso.
+  - apply (proj1 Hiff); [discriminate|reflexivity].
+  - apply (proj2 Hiff); [discriminate|reflexivity].
+Qed.
